@@ -30,6 +30,11 @@ fn is_validation_failed<T>(r: &Result<T>) -> bool {
 
 // ------------------------------------------------------------------------------------------------
 // into_matrix, Hornuss mode
+// NOT REGISTERED (into_matrix_hornuss, into_matrix_dct2): neither closes. `params.map(..)` builds the [Vec<f32>; 3]
+// through MaybeUninit copies, after which CBMC no longer resolves the slice iterators' `ptr == end` tests: the
+// FlattenCompat loop of `weights.iter_mut().flatten()` is unwound to the bound on every one of the 192 calls
+// (measured: out of memory at 14 GB after 12 min with unwind 195; 10 min without reaching the solver with unwind 66).
+// Kept as the statement of the intended contract.
 // ------------------------------------------------------------------------------------------------
 #[kani::proof]
 #[kani::unwind(195)]
@@ -142,6 +147,9 @@ fn set_get_contract() {
 // ------------------------------------------------------------------------------------------------
 // DequantMatrixParams::parse: the 8x8-only encoding modes are rejected for every other parameter set; Hornuss
 // parameters are the nine F16 fields in channel-major order
+// NOT REGISTERED: the encoding mode is read from the bit stream, so the arm of mode 7 (Modular::parse + decode of a
+// raw matrix) is part of the formula although the assumption excludes it; symbolic execution did not finish in 15 min.
+// Kept as the statement of the intended contract.
 // ------------------------------------------------------------------------------------------------
 #[kani::proof]
 #[kani::unwind(12)]
